@@ -6,6 +6,32 @@ CODES = {1: "server listener notifications do not alternate subscribed/unsubscri
          4: "a positive SubscribeAck left although the subscription was not recorded", 98: "checker could not decode"}
 
 
+def directed_renewal(r):
+    """A finite-TTL subscription that is renewed before its deadline - by a plain Subscribe, or after a detected reboot /
+    a StopSubscribe - with a LATER deadline (longer or infinite TTL); the run extends beyond the first deadline."""
+    from .. import conv
+    T = scen.T
+    cfg = list(scen.timings(r))
+    cfg[6] = T                       # cyclic: the instance keeps running
+    cfg[11] = r.choice([0, 5 * scen.MS])
+    svc = scen.SERVICES[0]
+    peers = {1: scen.Peer(1)}
+    ttl1 = r.choice([1, 2])
+    t0 = T // 2 + r.choice([0, T // 4])
+    t1 = t0 + r.randrange(1, ttl1 * T)
+    ttl2 = r.choice([3, 0xFFFFFF])
+    how = r.choice(["refresh", "refresh", "reboot", "stop"])
+    events = [(0, (1, [17, 1])), (0, (1, [0]))]
+    events.append((t0, (0, 1, False, peers[1].datagram([scen.sub_entry(r, svc, 5, ttl1, 0, 1, ep_n=1)], False))))
+    if how == "reboot":
+        peers[1].reboot()
+    if how == "stop":
+        events.append((t1, (0, 1, False, peers[1].datagram([scen.sub_entry(r, svc, 5, 0, 0, 1, ep_n=1)], False))))
+        t1 += r.choice([1, T // 8])
+    events.append((t1, (0, 1, False, peers[1].datagram([scen.sub_entry(r, svc, 5, ttl2, 0, 1, ep_n=1)], False))))
+    return dict(cfg=tuple(cfg), insts=[(1, conv.s_service(svc), [])], draws=[0] * 8, events=events, end=t0 + ttl1 * T + 2 * T, rev=r.random() < 0.3, fuel=20000)
+
+
 def run(ctx):
     r = ctx.rng
     quick = ctx.tier == "quick"
@@ -15,7 +41,7 @@ def run(ctx):
                 "implementation trace judged by check_C06; non-trivial = distinct scenario producing at least one event")
     ctx.assumptions = ["the server listener's decision is a function of the eventgroup id (scenario input)"]
     n = 300 if quick else 12000
-    scs = stackprop.corpus_scenarios("C06") + [scen.server_scenario(r) for _ in range(n)]
+    scs = stackprop.corpus_scenarios("C06") + [directed_renewal(r) if k % 10 == 9 else scen.server_scenario(r) for k in range(n)]
     if not quick:
         scs += [scen.server_scenario(r, small=True, length=r.randint(1, 5)) for _ in range(3000)]
     stackprop.run_scenarios(ctx, scs, 3006, CODES, what="server subscriptions")
